@@ -253,7 +253,8 @@ pub fn gen_requests(rng: &mut Rng, n: u64, out: &mut Out) -> Vec<String> {
 
     for si in 0..n {
         // the first sessions walk through all link modes once, the rest is weighted
-        let (prog, mode) = if (si as usize) < PROGS.len() { (PROGS[si as usize].0, PROGS[si as usize].1) } else {
+        const WALK: &[usize] = &[0, 1, 2, 4, 6, 7, 7, 8];   // pie, nopie, staticpie, startup, startup2, dl, dl, dl_nopie
+        let (prog, mode) = if (si as usize) < WALK.len() { (PROGS[WALK[si as usize]].0, PROGS[WALK[si as usize]].1) } else {
             let mut k = rng.below(total); let mut c = PROGS[0];
             for p in PROGS { if k < p.2 { c = *p; break; } k -= p.2; }
             (c.0, c.1)
@@ -411,6 +412,7 @@ fn session(lines: &[String], emit: &mut dyn FnMut(String)) {
     let mut shadowed: BTreeSet<(usize, usize)> = BTreeSet::new();
     let mut collision_at_exit = false;
     let mut pending_rel: Vec<(usize, usize, u64)> = vec![];
+    let mut stale_addrs: BTreeSet<u64> = BTreeSet::new();
     let mut stale_at_exit = false; let mut n_user_running = 0usize; let mut exit_checked = false;
     let ofail = |emit: &mut dyn FnMut(String), key: &str, what: String| {
         emit(format!("!oracle {}", json!({"key": key, "what": what, "replay": {"prog": prog, "script": script}})));
@@ -571,7 +573,12 @@ fn session(lines: &[String], emit: &mut dyn FnMut(String)) {
                             let ra = ra.as_usize() as u64;
                             let inside = f.fns.iter().flatten().any(|pl| bias(&f, &maps, pl.obj).map(|bb| ra >= bb + pl.lo && ra < bb + pl.hi).unwrap_or(false));
                             let stale = !maps.iter().any(|m| ra >= m.1 && ra < m.2);
-                            if !inside && !stale { ofail(emit, "breakpoint-address-outside-requested-function", format!("breakpoint #{} at {ra:x} is in no requested function of a mapped object", b.number)); }
+                            if stale { stale_addrs.insert(ra); }
+                            if !inside && !stale {
+                                // a breakpoint of an unloaded library that is still listed, at an address that now belongs to ANOTHER object
+                                let key = if stale_addrs.contains(&ra) { "stale-library-breakpoint-listed-inside-another-object" } else { "breakpoint-address-outside-requested-function" };
+                                ofail(emit, key, format!("breakpoint #{} at {ra:x} is in no requested function of a mapped object", b.number));
+                            }
                         }
                     }
                     // (3) backtrace through the library frame, arguments read in library frames
@@ -616,16 +623,24 @@ fn session(lines: &[String], emit: &mut dyn FnMut(String)) {
         let libs = libs_of(&f, &live.dbg);
         let l_s = enc_list(&libs, |(id, r)| match r { Some((a, b)) => format!("{id}:{a:x}:{b:x}"), None => format!("{id}:-") });
         if started && !exited {
-            n_user_running = bps.len();
-            // two enabled breakpoints of different objects at the same ELF address?
+            // how many DIFFERENT places (object, ELF address) carry a user breakpoint: an uninit entry and an enabled entry for the
+            // same place count once (they merge when the program ends); a stale entry (address not mapped) counts on its own.
+            // Two enabled breakpoints of different objects at the same ELF address?
             let mut seen: BTreeMap<u64, usize> = BTreeMap::new();
+            let mut places: BTreeSet<(usize, u64)> = BTreeSet::new();
             collision_at_exit = false;
             for b in &bps { if let Some(h) = b.strip_prefix('r') {
                 let a = u64::from_str_radix(h, 16).unwrap();
+                let mut found = false;
                 for o in [EXE, LIBA, LIBB] { if let (Some(bb), Some(lo), Some(hi)) = (bias(&f, &maps_now, o), lowest(&maps_now, o), highest_end(&maps_now, o)) && a >= lo && a < hi {
+                    found = true;
+                    places.insert((o, a - bb));
                     if let Some(o0) = seen.insert(a - bb, o) && o0 != o { collision_at_exit = true; }
                 } }
+                if !found { places.insert((usize::MAX, a)); }
             } }
+            let extra_g = bps.iter().filter_map(|b| b.strip_prefix('g')).map(|h| u64::from_str_radix(h, 16).unwrap()).filter(|g| !places.iter().any(|(o, pg)| *o != usize::MAX && pg == g)).collect::<BTreeSet<u64>>().len();
+            n_user_running = places.len() + extra_g;
         }
         if exited && !exit_checked {
             exit_checked = true;
